@@ -783,17 +783,21 @@ def _format_italics(collection):
 
 
 def _remove_spaces_at_end_of_the_line(collection):
+    """Strip the blanks at the end of every line: the text node in front of
+    a line break, of a repositioning or of the end of the collection, also
+    when italics nodes stand in between.
+    """
+    def strip_text_before(idx):
+        idx -= 1
+        while idx >= 0 and collection[idx].is_italics_node():
+            idx -= 1
+        if idx >= 0 and collection[idx].is_text_node() and collection[idx].text:
+            collection[idx].text = collection[idx].text.rstrip()
+
     for idx, node in enumerate(collection):
-        if (
-            idx > 0
-            and node._type in (_InstructionNode.BREAK, _InstructionNode.CHANGE_POSITION)
-            and collection[idx - 1].is_text_node()
-            and collection[idx - 1].text
-        ):
-            collection[idx - 1].text = collection[idx - 1].text.rstrip()
-    # handle last node
-    if collection[-1].is_text_node():
-        collection[-1].text = collection[-1].text.rstrip()
+        if node._type in (_InstructionNode.BREAK, _InstructionNode.CHANGE_POSITION):
+            strip_text_before(idx)
+    strip_text_before(len(collection))
     return collection
 
 
